@@ -5,7 +5,8 @@ patched worktree and record the blind verdict (`first_status`). Accepted ones ar
 import json, os, re, shutil, subprocess, sys, tempfile
 from concurrent.futures import ThreadPoolExecutor
 
-ROOT = "/tmp/wt2"
+ROOT = os.environ.get("SEED_ROOT", "/tmp/wt2")
+TAG = os.environ.get("SEED_TAG", "r2")
 
 def sh(cmd, cwd=None, env=None, timeout=1500):
     p = subprocess.run(cmd, shell=True, cwd=cwd, env=env, capture_output=True, text=True, timeout=timeout)
@@ -18,7 +19,7 @@ def verify(arg):
         return None
     wt = tempfile.mkdtemp(prefix=f"vs2_{pid}_{k}_", dir="/tmp")
     os.rmdir(wt)
-    res = {"id": f"{pid}-r2-{k}", "property": pid}
+    res = {"id": f"{pid}-{TAG}-{k}", "property": pid}
     try:
         rc, out = sh(f"git -C /repo worktree add --detach {wt} HEAD")
         assert rc == 0, out
@@ -63,13 +64,14 @@ def verify(arg):
 
 if __name__ == "__main__":
     jobs = [(pid, k) for pid in sys.argv[1:] for k in (1, 2, 3)]
+    jobs = [j for j in jobs if not os.path.exists(f"/verif/seeded/{j[0]}-{TAG}-{j[1]}")]
     with ThreadPoolExecutor(max_workers=6) as ex:
         for (pid, k), r in zip(jobs, ex.map(verify, jobs)):
             if r is None:
                 continue
             print(json.dumps({kk: r[kk] for kk in ("id", "accepted", "suite", "demo_clean_exit", "demo_patched_exit", "first_status") if kk in r}), flush=True)
             if r.get("accepted"):
-                dst = f"/verif/seeded/{pid}-r2-{k}"
+                dst = f"/verif/seeded/{pid}-{TAG}-{k}"
                 os.makedirs(dst, exist_ok=True)
                 shutil.copy(f"{ROOT}/{pid}/out/{k}/patch.diff", dst)
                 shutil.copy(f"{ROOT}/{pid}/out/{k}/demo.py", dst)
@@ -78,7 +80,7 @@ if __name__ == "__main__":
                 except Exception as e:
                     meta = {"property": pid, "summary": f"(agent meta.json unreadable: {e})"}
                 meta["breaks_property"] = pid
-                meta["round"] = 2
+                meta["round"] = int(TAG[1:]) if TAG[1:].isdigit() else TAG
                 meta["first_status"] = r["first_status"]
                 meta["first_hits"] = r["first_hits"]
                 meta["first_undecided"] = r["first_undecided"]
